@@ -98,7 +98,8 @@ Exprs(c) ==
   \cup (IF "trap" \in P.kinds THEN {Bin("divide", Num(c), Var(x)) : x \in NumVars} \cup {MCall(Var(x), "len", <<>>) : x \in Visible \cap {"k"}} ELSE {})
   \cup (IF "arr" \in P.kinds THEN {Idx(Var(a), Num(0)) : a \in VisArr} \cup {MCall(Var(a), "pop", <<>>) : a \in VisArr} ELSE {})
 \* conditions: comparisons of a visible number with a small constant, or a parameter test
-Conds(c) == {Bin("lt", Var(x), Num((c % 3) + 1)) : x \in NumVars} \cup {[k |-> "bool", v |-> b] : b \in IF NumVars = {} THEN {TRUE, FALSE} ELSE {}}
+Conds(c) == (IF "dyncond" \in P.kinds THEN {Var(x) : x \in Visible \cap {"k"}} ELSE {}) \cup
+            {Bin("lt", Var(x), Num((c % 3) + 1)) : x \in NumVars} \cup {[k |-> "bool", v |-> b] : b \in IF NumVars = {} THEN {TRUE, FALSE} ELSE {}}
 
 Open(kind, id, funs, decl, hdr) == [kind |-> kind, id |-> id, stmts |-> <<>>, decl |-> decl, funs |-> funs, defd |-> {}, hdr |-> hdr]
 AddStmt(s) == stk' = [stk EXCEPT ![Len(stk)].stmts = Append(@, s)]
@@ -124,6 +125,8 @@ GenSimple ==
      \/ /\ Has("set") /\ \E x \in Assignable, e \in Exprs(id) : AddStmt(Set(id, x, e))
      \/ /\ Has("shout") /\ \E e \in Exprs(id) \ {Atom(id)} : AddStmt(Shout(id, e))
      \/ /\ Has("call") /\ \E e \in Calls(id) : AddStmt(ExprS(id, e))
+     \* type juggling: a variable declared at one type is re-assigned at another (accepted by the checker)
+     \/ /\ Has("juggle") /\ \E x \in Assignable : AddStmt(Set(id, x, IF P.ty = "num" THEN StrC(id) ELSE Num(id)))
      \/ /\ Has("ret") /\ InFun /\ \E e \in Exprs(id) : AddStmt(Ret(id, e))
      \/ /\ Has("arr") /\ \E a \in ArrNames \cap P.names, e \in Exprs(id) : AddDecl(Make(id, a, ArrE(<<e>>)), a)
      \/ /\ Has("arr") /\ \E a \in ArrNames \cap P.names, b \in VisArr : AddDecl(Make(id, a, Var(b)), a)
